@@ -834,8 +834,33 @@ def process_commandline(out: OutputBuffer, args: List[str]) -> 'AuditConf':  # p
 
         # Set simple flags.
         aconf.client_audit = argument.client_audit
-        aconf.ipv4 = argument.ipv4
-        aconf.ipv6 = argument.ipv6
+        # The order in which -4/--ipv4 and -6/--ipv6 were given is the order of precedence (i.e.: "-64" prefers IPv6 over IPv4).
+        ip_version_order = []
+        for arg in args:
+            if arg == '--':
+                break
+            if arg in ('--ipv4', '--ipv6'):
+                flags = arg[-1]
+            elif arg.startswith('-') and not arg.startswith('--'):
+                flags = ''
+                for ch in arg[1:]:
+                    if ch in 'glMPpTt':  # These short options take a value; the rest of the argument is that value.
+                        break
+                    flags += ch
+            else:
+                flags = ''
+            for ch in flags:
+                if ch in '46' and ch not in ip_version_order:
+                    ip_version_order.append(ch)
+        for ch in ip_version_order:
+            if ch == '4' and argument.ipv4:
+                aconf.ipv4 = True
+            elif ch == '6' and argument.ipv6:
+                aconf.ipv6 = True
+        if argument.ipv4 and 4 not in aconf.ip_version_preference:
+            aconf.ipv4 = True
+        if argument.ipv6 and 6 not in aconf.ip_version_preference:
+            aconf.ipv6 = True
         aconf.level = argument.level
         aconf.list_policies = argument.list_policies
         aconf.manual = argument.manual
